@@ -10,7 +10,7 @@ import z3
 from cobra.medium import minimal_medium
 
 from vlib import env, networks
-from vlib.lpspec import fba_lp
+from vlib.lpspec import exists_point, fba_lp
 from vlib.observe import observe, same
 from vlib.runner import H
 from vlib.vsym import SymReal, lift, rv, zbool
@@ -184,6 +184,69 @@ def c18_minimal_medium(E, sym=("EX_A_e", "EX_B_e")):
                    "medium-is-sufficient", witness=wit)
 
 
+def c18_minimal_medium_mip(E, sym=("EX_A_e", "EX_B_e")):
+    """minimize_components=True: the real add_mip_obj / minimal_medium on the MILP contract of the stub (binary
+    indicators enumerated inside the formula).  Oracle: no sufficient flux distribution imports through fewer
+    exchanges than the returned medium lists; the returned medium is sufficient; None iff no medium suffices."""
+    m = _model(E, sym=sym, delta=0.01)
+    g = E.real("min_objective_value", 0.01, 12)
+    oe = E.pick("open_exchanges", [False, True, 5])
+    E.note(open_exchanges=str(oe))
+    lp = fba_lp(m)
+    if oe is not False:
+        n = 1000 if oe is True else oe
+        for rid in EXCH:
+            lp.lb[rid], lp.ub[rid] = -n, n
+    lp.add_row("growth", {"DM_C": 1}, g, None)
+    suff = exists_point(E, lp, "oracle_sufficient_medium_exists", tag="oracle_any")
+    before = observe(m)
+    start = len(E.solve_log)
+    med = minimal_medium(m, min_objective_value=g, minimize_components=True, open_exchanges=oe)
+    same(E, before, observe(m), "model-unchanged", what="minimal_medium(minimize_components)")
+    if not suff:
+        E.prove(med is None, "None-iff-no-medium-suffices", oracle="infeasible")
+        return
+    E.prove(med is not None, "None-iff-no-medium-suffices", oracle="feasible")
+    if med is None:
+        return
+    E.prove(set(med.index) <= set(EXCH), "medium-lists-exchanges-only", got=list(med.index))
+    E.prove(E.all_of([lift(med[k]) > 0 for k in med.index]), "imports-positive")
+    ncomp = len([k for k in med.index if k in EXCH])
+    # minimal number of components: no sufficient distribution imports through fewer exchanges
+    w = lp.fresh_point(E, "fewer")
+    cnt = rv(0)
+    for rid, kind in EXCH.items():
+        imp = -w[rid] if kind == "reactant" else w[rid]
+        cnt = cnt + z3.If(imp > 0, rv(1), rv(0))
+    E.prove(z3.Not(z3.And(lp.feasible(w), cnt < rv(ncomp))), "number-of-components-minimal", components=ncomp)
+    # sufficiency with the returned imports as the medium
+    lp2 = fba_lp(m, tag="suffm")
+    for rid, kind in EXCH.items():
+        n = None
+        if oe is not False:
+            n = 1000 if oe is True else oe
+        val = med[rid] if rid in med.index else 0
+        val = val + DROP
+        if kind == "reactant":
+            lp2.lb[rid] = -val
+            if n is not None:
+                lp2.ub[rid] = n
+        else:
+            lp2.ub[rid] = val
+            if n is not None:
+                lp2.lb[rid] = -n
+    w2 = lp2.fresh_point(E, "suffm")
+    wit = None
+    if E.symbolic:
+        recs = [r for r in E.solve_log[start:] if r.get("status") == "optimal"]
+        if recs:
+            rec = recs[-1]
+            wit = {w2[r.id]: rec["x"][r.id] - rec["x"][r.reverse_id] for r in m.reactions}
+    E.prove_exists(list(w2.values()), z3.And(lp2.feasible(w2, slack=(0 if E.symbolic else 1e-6)),
+                                             w2["DM_C"] >= lift(g) - (rv(E.tol) if not E.symbolic else 0)),
+                   "medium-is-sufficient", witness=wit)
+
+
 def c18_minimal_medium_wide(E):
     return c18_minimal_medium(E, sym=("EX_A_e", "EX_B_e", "SK_A", "DM_C"))
 
@@ -196,6 +259,10 @@ HARNESSES = [
       thorough=dict(max_paths=200000, time_budget=400),
       bounds="T5; bounds of both exchanges symbolic (0 or |b|>=1e-2); min_objective_value symbolic in [0.01,12]; open_exchanges "
              "False/True/5; exports on/off; minimize_components=False only"),
+    H("c18_minimal_medium_mip", c18_minimal_medium_mip, quick=dict(max_paths=8000, time_budget=70),
+      thorough=dict(max_paths=200000, time_budget=400),
+      bounds="T5; minimize_components=True on the MILP contract (2 binary indicators, 4 assignments enumerated in the formula); "
+             "bounds of both exchanges symbolic (0 or |b|>=1e-2); min_objective_value symbolic in [0.01,12]; open_exchanges False/True/5"),
     H("c18_minimal_medium_wide", c18_minimal_medium_wide, tiers=("thorough",), thorough=dict(max_paths=200000, time_budget=500),
       bounds="as c18_minimal_medium with the bounds of both exchanges, the sink and the demand symbolic"),
 ]
